@@ -179,7 +179,8 @@ RULES = [
 
 LEVEL_TEXT = ("Static who-may-call, dominance and provenance rules on MIR: a peer is removed only at three reviewed sites (timeout, authenticated "
               "close, own crypto failure); a pending handshake object can receive a datagram only if it is a handshake message or no peer exists "
-              "for that address; the crypto tick attributes failures to the right table.")
+              "for that address; the crypto tick attributes failures to the right table."
+              " The receive window is advanced only behind a successful AEAD open; a finished (lingering / closing) handshake object cannot be restarted by a datagram (constant propagation of the stage field).")
 LEVEL_NOTE = ("Partial: decides C09.R1-R3 and relies on C03 (nonce window), C07.R4 (stale rotation ids), C05.R1 (absorbing completion) for stale "
               "datagrams. Not decided: the timed re-injection experiment (offsets, probe phase).")
 TECHNIQUE = "MIR who-may-call, dominance by lookup/marker edges, taint provenance"
